@@ -36,7 +36,14 @@ WriteResult ovmb_write(std::filesystem::path const& _filename,
     if (!f.good()) {
         return WriteResult::CannotOpenFile;
     }
-    return ovmb_write(f, _mesh, _options, _prop_codecs);
+    auto result = ovmb_write(f, _mesh, _options, _prop_codecs);
+    // Most of the file usually still sits in the stream buffer: errors such
+    // as a full disk only surface when it is flushed.
+    f.close();
+    if (result == WriteResult::Ok && f.fail()) {
+        return WriteResult::Error;
+    }
+    return result;
 }
 
 } // namespace OpenVolumeMesh::IO
